@@ -436,6 +436,18 @@ def r01_16(ctx, p):
               how="explored with state=WAITING: every path that publishes passes `cursor = min(cursor, number)` (or a guarded lowering)", witness=bad)
 
 
+def r01_17(ctx, p):
+    ctx.rule("R01.17", "get_best_trial agrees across backends: the in-memory backend answers from an incrementally kept best-trial id, so every path of "
+             "set_trial_state_values on which a trial becomes COMPLETE - with or without values in that call - has to pass the cache update (journal "
+             "uses the base scan, RDB a query: both see every COMPLETE trial)")
+    from rules.c12 import complete_updates_cache
+    im = p.cls(INMEM)
+    writers = [m for m, f in im.methods.items() if m != "__init__" and any(
+        isinstance(n, ast.Assign) and any(isinstance(t, ast.Attribute) and t.attr == "best_trial_id" for t in n.targets) for n in own_nodes(f.node))]
+    ctx.require(len(writers) == 1, f"R01.17: expected one in-memory method that maintains best_trial_id, found {writers}")
+    complete_updates_cache(ctx, "R01.17", writers[0])
+
+
 # ------------------------------------------------------------------------------------------------
 def must_may_keys(func, call):
     """(must, may) key sets of the dict passed as 2nd argument of _write_log at `call`."""
@@ -1068,3 +1080,4 @@ def run(ctx):
     r01_14(ctx, p)
     r01_15(ctx, p)
     r01_16(ctx, p)
+    r01_17(ctx, p)
